@@ -4,8 +4,8 @@ From Coq Require Import List Arith.
 Import ListNotations.
 From LCC Require Import Model.ReportDir Proofs.ReportDirP.
 
-(* For every history of runs (any limits, including none) and manual deletions of arbitrary archives,
-   starting from an empty project directory, the rotation never fails ... *)
+(* For every history of runs (any limits, including none), manual deletions of arbitrary archives and removals of report/
+   itself, starting from an empty project directory, the rotation never fails ... *)
 Theorem C19_histories_total : forall ops : list op, exists s, exec ops 0 init_state = Some s.
 Proof. exact histories_total. Qed.
 Print Assumptions C19_histories_total.
@@ -20,6 +20,14 @@ Theorem C19_no_loss : forall (ops : list op) (limit : option nat) (s s' : state)
 Proof. exact every_run_safe. Qed.
 Print Assumptions C19_no_loss.
 
+(* when report/ is not there (first run, or the user removed it or moved it away), a run touches no archive at all, whatever
+   the limit and however many archives there are: nothing is purged to make room for a report that does not exist *)
+Theorem C19_no_report_no_purge : forall (ops : list op) (limit : option nat) (s s' : state),
+  exec ops 0 init_state = Some s -> cur s = None -> run limit (runs ops) s = Some s' ->
+  arch s' = arch s /\ cur s' = Some (runs ops).
+Proof. exact run_without_report_keeps_archives. Qed.
+Print Assumptions C19_no_report_no_purge.
+
 (* a manual deletion removes exactly the directory named *)
 Theorem C19_delete_exact : forall k s, cur (delete k s) = cur s /\
   forall k' m, In (k', m) (arch (delete k s)) <-> In (k', m) (arch s) /\ k' <> k.
@@ -31,3 +39,9 @@ Example C19_witness :
   exists s, exec [Run (Some 3); Run (Some 3); Run (Some 3); Run (Some 3); Delete 2; Run (Some 3); Run (Some 3)] 0 init_state = Some s
             /\ observe s = (Some 5, [(1, 4); (2, 3); (3, 2)]).
 Proof. eexists. split; vm_compute; reflexivity. Qed.
+
+(* non-vacuity of C19_no_report_no_purge: a full set of archives (limit 2), report/ removed, then a run *)
+Example C19_no_report_witness :
+  exists s, exec [Run (Some 2); Run (Some 2); Run (Some 2); Drop] 0 init_state = Some s /\ cur s = None /\ length (arch s) = 2
+            /\ exists s', run (Some 2) 3 s = Some s' /\ observe s' = (Some 3, [(1, 1); (2, 0)]).
+Proof. eexists. repeat split; try (vm_compute; reflexivity). eexists. split; vm_compute; reflexivity. Qed.
